@@ -99,14 +99,16 @@ impl Acc {
 /// one pass per seed over the grid (or only the checkpoints in `only`), accumulating into acc
 fn stream_pass(b: usize, g: &[u64], only: Option<&[usize]>, seed: u64, acc: &mut Acc) {
     let mut h = Hll::with_hash(b, CtlBuildHasher::identity());
+    // The property is phrased relative to relative_error(), so the getter is the yardstick: an
+    // implementation that advertises a (correctly) larger error for a cheaper estimator, or rounds the
+    // constant to 1.04, satisfies it. (An earlier version compared the getter with
+    // sqrt(3 ln 2 - 1)/sqrt(m) to 1e-9 - stricter than the statement; a neutral change returning
+    // 1.04/sqrt(m) showed that.) Only a value that cannot be an error figure at all is reported.
     let re = h.relative_error();
-    // the advertised error is sqrt(3 ln 2 - 1) / sqrt(m) (= 1.04 / sqrt(m)); the statistical bounds
-    // below use the formula, not the getter
-    let re_formula = (3f64 * 2f64.ln() - 1f64).sqrt() / ((1u64 << b) as f64).sqrt();
-    if ((re - re_formula) / re_formula).abs() > 1e-9 {
+    if !(re.is_finite() && re > 0.0 && re < 1.0) {
         acc.re_bad = Some(re);
     }
-    let re = re_formula;
+    let re = if re.is_finite() && re > 0.0 { re } else { (3f64 * 2f64.ln() - 1f64).sqrt() / ((1u64 << b) as f64).sqrt() };
     let mut r = FastRng::new(seed);
     if h.count() != 0 {
         acc.empty_bad = Some(h.count() as u64);
@@ -412,7 +414,7 @@ pub fn run(ctx: &Ctx) -> Report {
         let g = &grids[b];
         rep.config(format!("hll(b={}) seeds={} checkpoints={}", b, acc.seeds, g.len()));
         if let Some(v) = acc.re_bad {
-            rep.violation("C03/relative_error-value", format!("hll(b={}): relative_error() = {} but sqrt(3 ln 2 - 1)/sqrt(m) = {}", b, v, (3f64 * 2f64.ln() - 1f64).sqrt() / ((1u64 << b) as f64).sqrt()), json!({"b": b, "relative_error": v}));
+            rep.violation("C03/relative_error-value", format!("hll(b={}): relative_error() = {} is not a usable error figure (must be finite and in (0, 1))", b, v), json!({"b": b, "relative_error": v}));
         }
         if let Some(c) = acc.empty_bad {
             rep.violation("C03/empty-not-zero", format!("hll(b={}): empty sketch counts {}", b, c), json!({"b": b}));
